@@ -201,6 +201,23 @@ func (e *Env) selField(v *Val, name string) *Val {
 		}
 		return e.loadField(e.st, v.Loc.S, joinPath(v.Loc.Prefix, p), ft, v.Loc.Obj)
 	}
+	if v.Loc != nil && v.Loc.Kind == LLocal {
+		p, ft, ok := fieldPath(v.Loc.T, name)
+		if !ok {
+			e.fail("no field %s in %v", name, v.Loc.T)
+		}
+		l := *v.Loc
+		l.Prefix = joinPath(l.Prefix, p)
+		l.T = ft
+		if _, isStruct := structOf(ft); isStruct && !e.tr.W.isOpaqueNamed(ft) {
+			return &Val{T: types.NewPointer(ft), Loc: &l}
+		}
+		res := &Val{T: ft}
+		for _, a := range e.tr.W.flatten(ft) {
+			res.A = append(res.A, e.tr.cur(e.st, Comp{"L." + l.ID + "." + joinPath(l.Prefix, a.Path), a.Sort, false}))
+		}
+		return res
+	}
 	if pt, ok := t.Underlying().(*types.Pointer); ok {
 		s := pt.Elem()
 		p, ft, ok := fieldPath(s, name)
@@ -373,6 +390,8 @@ func (e *Env) ident(name string) *Val {
 			e.fail("$seen is only available in invariants of map-range loops")
 		case "$uuidFailed":
 			return boolVal(e.tr.cur(e.st, compUUIDFailed))
+		case "$wgWaited":
+			return boolVal(e.tr.cur(e.st, compWgWaited))
 		case "$held":
 			return intVal(e.tr.cur(e.st, compHeld))
 		case "$alloc":
@@ -754,6 +773,8 @@ func (tr *FnCtx) resolveComps(pat string, pkg *types.Package) []Comp {
 			return []Comp{compLogsRemoved}
 		case "$uuidFailed":
 			return []Comp{compUUIDFailed}
+		case "$wgWaited":
+			return []Comp{compWgWaited}
 		}
 		return nil
 	}
@@ -792,7 +813,7 @@ func (tr *FnCtx) resolveComps(pat string, pkg *types.Package) []Comp {
 		path := strings.Join(parts[split:], ".")
 		var out []Comp
 		for _, a := range tr.W.flatten(t) {
-			if a.Path == path || strings.HasPrefix(a.Path, path+".") || strings.HasPrefix(a.Path, path+"#") {
+			if path == "*" || a.Path == path || strings.HasPrefix(a.Path, path+".") || strings.HasPrefix(a.Path, path+"#") {
 				out = append(out, Comp{"F." + tr.W.typeKey(t) + "." + a.Path, "(Array Int " + a.Sort + ")", false})
 			}
 		}
